@@ -902,3 +902,47 @@ func VP_C02_ops() {
 		vpAssert("dictionary-stack-unchanged", len(intp.DictStack) == preDepth)
 	}
 }
+
+// C02 mul: integer products are exact, and promoted to real exactly when they overflow.  One
+// operand is an arbitrary 64-bit integer, the other comes from a pool of constants (a 64x64
+// symbolic multiplication is out of the solver's reach); the reference decides overflow by
+// comparing against the exact quotient bounds, not by multiplying.
+// the first 11 constants divide cheaply (0, +-1, powers of two, the extremes); the rest need long solver runs
+var vpMulPool = []int64{0, 1, -1, 2, -2, 1 << 31, -(1 << 31), 1 << 62, -(1 << 62), math.MaxInt64, math.MinInt64, 3, -3, 7, 10, -10, 1<<32 - 1}
+
+func VP_C02_mul() {
+	vpUnwind(40)
+	intp := NewInterpreter()
+	a := vpInt64("a")
+	b := vpMulPool[vpChoose("b", vpParam("POOL", 11))]
+	if vpChoose("swap", 2) == 1 {
+		intp.Stack = append(intp.Stack, Integer(b), Integer(a))
+	} else {
+		intp.Stack = append(intp.Stack, Integer(a), Integer(b))
+	}
+	err := vpRunOp(intp, "mul")
+	vpAssert("mul-succeeds", err == nil && len(intp.Stack) == 1)
+	if err != nil || len(intp.Stack) != 1 {
+		return
+	}
+	// exact product fits int64  <=>  a within [min/b, max/b] (b != 0), computed on constants
+	fits := true
+	switch {
+	case b == 0:
+	case b == -1:
+		fits = a != math.MinInt64
+	case b > 0:
+		fits = a <= math.MaxInt64/b && a >= math.MinInt64/b
+	default:
+		fits = a >= math.MaxInt64/b && a <= math.MinInt64/b
+	}
+	if fits {
+		vpCover("exact")
+		r, ok := intp.Stack[0].(Integer)
+		vpAssert("exact-integer-product", ok && int64(r) == a*b)
+	} else {
+		vpCover("promoted")
+		_, ok := intp.Stack[0].(Real)
+		vpAssert("overflow-promoted-to-real", ok)
+	}
+}
